@@ -216,3 +216,87 @@ pub async fn op_editor_program(sc: Value) -> Value {
     }
     json!({"log": log, "violations": violations})
 }
+
+/// C10 cross-party flow: the holder of delegated role A hands over new metadata; the owner incorporates it with update_delegated_targets.
+/// Accepted only if it meets A's threshold under the delegating role's keys and does not lower A's version.
+pub async fn op_cross_party(sc: Value) -> Value {
+    let seed = sc["seed"].as_u64().unwrap_or(0);
+    let mut dev: Vec<Value> = vec![];
+    let mut cases = 0u64;
+    for (label, spec) in menu(seed).into_iter().filter(|(l, _)| l.starts_with("tree")) {
+        // A: index 1, 3 keys, threshold 2, version 2
+        for (case, nvalid, nforeign, version, expect_ok) in [("genuine, newer", 2usize, 0usize, 3u64, true), ("genuine, same version", 2, 0, 2, true), ("genuine, all three keys", 3, 0, 5, true),
+                                                            ("under-signed (1 of threshold 2)", 1, 0, 3, false), ("signed by the wrong keys", 0, 2, 3, false), ("one valid key and one foreign key", 1, 1, 3, false),
+                                                            ("genuine but older", 2, 0, 1, false), ("unsigned", 0, 0, 3, false)] {
+            cases += 1;
+            let built = build_repo(&spec).await;
+            let src = tempfile::tempdir().unwrap();
+            built.write_to(src.path());
+            let md = src.path().join("metadata");
+            let repo = RepositoryLoader::new(&built.root, dir_url(&md), dir_url(&src.path().join("targets"))).load().await.unwrap();
+            // incoming metadata for A: the currently loaded document with one more target and the given version
+            let cur: &Targets = &repo.targets().signed.delegations.as_ref().unwrap().roles.iter().find(|r| r.name == "A").unwrap().targets.as_ref().unwrap().signed;
+            let mut inc = cur.clone();
+            inc.version = nz(version);
+            if let Some(d) = inc.delegations.as_mut() {
+                for r in d.roles.iter_mut() {
+                    r.targets = None;
+                }
+            }
+            let c = format!("handed over {seed} {case}").into_bytes();
+            inc.targets.insert(TargetName::new("a/handed-over").unwrap(), Target { length: c.len() as u64, hashes: Hashes { sha256: sha(&c).into(), _extra: HashMap::new() }, custom: HashMap::new(), _extra: HashMap::new() });
+            let mut signers: Vec<Ed25519KeyPair> = built.role_keys[1].iter().take(nvalid).map(|k| k.pair()).collect();
+            for _ in 0..nforeign {
+                signers.push(kp());
+            }
+            let refs: Vec<&Ed25519KeyPair> = signers.iter().collect();
+            let doc = sign(inc.clone(), &refs).await;
+            let incoming = tempfile::tempdir().unwrap();
+            std::fs::write(incoming.path().join("A.json"), ser(&doc)).unwrap();
+            let mut ed = RepositoryEditor::from_repo(src.path().join("root.json"), repo).await.unwrap();
+            let res = ed.update_delegated_targets("A", dir_url(incoming.path()).as_str()).await.map(|_| ());
+            let desc = format!("{label}: incoming A metadata {case} (version {version}, current 2, threshold 2 of 3)");
+            match (&res, expect_ok) {
+                (Ok(()), false) => dev.push(json!({"class": "cross-party-accepted", "what": format!("{desc} was incorporated by update_delegated_targets")})),
+                (Err(e), true) => dev.push(json!({"class": "cross-party-refused", "what": format!("{desc} was refused: {e}")})),
+                _ => {}
+            }
+            if res.is_ok() && expect_ok {
+                ed.change_delegated_targets("targets").unwrap();
+                ed.targets_version(nz(spec.roles[0].version + 1)).unwrap().targets_expires(far()).unwrap();
+                ed.snapshot_version(nz(spec.snapshot_version + 1)).snapshot_expires(far());
+                ed.timestamp_version(nz(spec.timestamp_version + 1)).timestamp_expires(far());
+                match ed.sign(&built.all_keys()).await {
+                    Err(e) => dev.push(json!({"class": "cross-party-sign", "what": format!("{desc}: sign after incorporation failed: {e}")})),
+                    Ok(signed) => {
+                        let out = tempfile::tempdir().unwrap();
+                        let omd = out.path().join("metadata");
+                        signed.write(&omd).await.unwrap();
+                        for (n, b) in &built.meta {
+                            if n.ends_with("root.json") {
+                                std::fs::write(omd.join(n), b).unwrap();
+                            }
+                        }
+                        match RepositoryLoader::new(&built.root, dir_url(&omd), dir_url(&src.path().join("targets"))).load().await {
+                            Err(e) => dev.push(json!({"class": "cross-party-reload", "what": format!("{desc}: the repository written after incorporation does not load: {e}")})),
+                            Ok(r2) => {
+                                let a2 = &r2.targets().signed.delegations.as_ref().unwrap().roles.iter().find(|r| r.name == "A").unwrap().targets.as_ref().unwrap().signed;
+                                if a2.version.get() != version || !a2.targets.contains_key(&TargetName::new("a/handed-over").unwrap()) || a2.targets.len() != inc.targets.len() {
+                                    dev.push(json!({"class": "cross-party-content", "what": format!("{desc}: after incorporation role A is not the handed-over document (version {}, {} targets)", a2.version, a2.targets.len())}));
+                                }
+                                if a2.delegations.as_ref().map(|d| d.roles.iter().filter(|r| r.targets.is_some()).count()) != cur_deleg_loaded(&inc) {
+                                    dev.push(json!({"class": "cross-party-subroles", "what": format!("{desc}: the roles delegated by A lost their metadata")}));
+                                }
+                            }
+                        }
+                    }
+                }
+            }
+        }
+    }
+    dev.truncate(10);
+    json!({"cases": cases, "deviations": dev})
+}
+fn cur_deleg_loaded(inc: &Targets) -> Option<usize> {
+    inc.delegations.as_ref().map(|d| d.roles.len())
+}
